@@ -19,6 +19,7 @@ import KinModel.Lemmas.C20Descent
 import KinModel.Lemmas.C20Load
 import KinModel.Gen.C20Types
 import KinModel.Gen.C20Loader
+import KinModel.LoadDoc
 
 namespace KinModel.Props.C20
 open KinModel.LoadSafety KinModel.LoadTypes
@@ -224,6 +225,48 @@ theorem descend_example :
   · by_cases h1 : i = 1
     · subst h1; simp at hs
     · simp [h0, h1] at hc
+
+/-- `derefPaths` of InternalizeRefs (path item → callbacks of its operations → their path items, no visited
+    set): total when that graph has no cycle. Full statement fails on `witness_unguarded_cycle`
+    (finding CallbackCycle). -/
+theorem internalize_total_partial (g : Graph) (rank : Nat → Nat) (hr : Ranked g (fun _ => false) rank)
+    (i : Nat) : ∃ b, descend g (fun _ => false) (rank i + 1) i = some b :=
+  descend_total_aux g _ rank hr (rank i + 1) i (Nat.le_refl _)
+
+/-! ## document-level exclusion predicates are inhabited (kernel-evaluated on concrete documents) -/
+
+section DocWitnesses
+open KinModel.LoadDoc
+
+/-- `requestBody.content.*.examples: {e: null}` -/
+def docNullExample : JV := .obj [("paths", .obj [("/a", .obj [("post", .obj [("requestBody", .obj [("content", .obj [("application/json", .obj [("examples", .obj [("e", .null)])])])])])])])]
+/-- `servers: [null]` -/
+def docNullServer : JV := .obj [("servers", .arr [.null])]
+/-- `components.links.L: {$ref: …}` -/
+def docLinkRef : JV := .obj [("components", .obj [("links", .obj [("L", .obj [("$ref", .str "#/components/links/M")])])])]
+/-- `encoding.f.headers.X: {$ref: …}` -/
+def docEncodingHeader : JV := .obj [("paths", .obj [("/a", .obj [("post", .obj [("requestBody", .obj [("content", .obj [("multipart/form-data", .obj [("encoding", .obj [("f", .obj [("headers", .obj [("X", .obj [("$ref", .str "#/components/headers/H")])])])])])])])])])])]
+/-- a plain valid skeleton: no class holds -/
+def docPlain : JV := .obj [("components", .obj [("schemas", .obj [("A", .obj [("type", .str "object")])])]), ("paths", .obj [])]
+
+set_option maxRecDepth 100000 in
+theorem witness_null_wrapper : nullWrapper (docPositions docNullExample) = true := by decide +kernel
+set_option maxRecDepth 100000 in
+theorem witness_null_member : nullMember (docPositions docNullServer) = true := by decide +kernel
+set_option maxRecDepth 100000 in
+theorem witness_encoding_header : encodingHeader (docPositions docEncodingHeader) = true := by decide +kernel
+set_option maxRecDepth 100000 in
+/-- finding #13: the typed positions of the document contain a reference under `components.links`, a
+    member `ResolveRefsIn` does not iterate (`rootNodes` has no `links` line) -/
+theorem witness_unwalked_position :
+    (docPositions docLinkRef).any (fun p => p.ty == .ptr (.struct "LinkRef") && p.ctx == "Components.links" && p.j.refText?.isSome) = true := by
+  decide +kernel
+set_option maxRecDepth 100000 in
+theorem nonvacuous_doc_classes :
+    nullWrapper (docPositions docPlain) = false ∧ nullMember (docPositions docPlain) = false ∧
+    encodingHeader (docPositions docPlain) = false ∧ (docPositions docPlain).length ≥ 5 := by decide +kernel
+
+end DocWitnesses
 
 /-! ## obligations over the regenerated tables -/
 
